@@ -109,9 +109,7 @@ func c07(r *Report) {
 		c07Requester(r, p.Func(v2Pkg, "protocol", name))
 	}
 	hac := p.Func(v2Pkg, "conversationManager", "hasActiveConversation")
-	r.Gate(Gate{ID: "C07.progress.expired-conversation-does-not-block", Fn: hac, Effect: ReturnsBool(0, true), Check: CallCheck(Fn("std:time", "Time", "After"), -1, IsTrue)})
-	r.ArgIs("C07.progress.expiry-compared-with-now.receiver", hac, Fn("std:time", "Time", "After"), -1, FieldV("conversation", "expiry"), 1)
-	r.ArgIs("C07.progress.expiry-compared-with-now.argument", hac, Fn("std:time", "Time", "After"), 0, NowV(), 1)
+	r.Gate(Gate{ID: "C07.progress.expired-conversation-does-not-block", Fn: hac, Effect: ReturnsBool(0, true), Check: TimeOrder("time.Now() is before conversation.expiry", NowV(), FieldV("conversation", "expiry"), IsTrue)})
 	c07GossipQueue(r)
 	c07Heartbeat(r)
 	c07RangeAgreement(r, hts)
@@ -579,7 +577,7 @@ func pageOffset(v ssa.Value, ps int64) (int64, bool) {
 		return c / ps, true
 	}
 	call, ok := v.(*ssa.Call)
-	if !ok || call.Common().StaticCallee() == nil || call.Common().StaticCallee().Name() != "pageClockStart" {
+	if !ok || !Fn(v2Pkg, "", "pageClockStart").M(call.Common()) {
 		return 0, false
 	}
 	a := call.Common().Args[0]
